@@ -103,7 +103,14 @@ def replayEv (rep : Bool) (sim : TSim) (e : TEv) (rest : List TEv) : TSim :=
         let sim' := applyFire rep sim g e.t
         { sim' with applied := sim'.applied.erase g }
   | "pending" =>
-    let sim0 := { sim with st := advance sim.st e.t }
+    let sim00 := { sim with st := advance sim.st e.t }
+    -- an entry the reader no longer saw and that the log shows firing later was already removed
+    -- (under the lock) when the table was read; its handler's log line came afterwards
+    let sim0 := sim00.st.table.foldl (fun s idg =>
+        if e.ids.contains idg.1 then s
+        else match firesLater s.tags idg.2 rest with
+          | some _ => applyFire rep s idg.2 e.t
+          | none => s) sim00
     let mine := (sim0.st.table.map (·.1)).toArray.qsort (· < ·) |>.toList
     if mine == e.ids then sim0
     else { sim0 with ok := false, why := sim0.why ++ ["pending set " ++ toString e.ids ++ " but model has " ++ toString mine] }
